@@ -216,14 +216,14 @@ def _cases(thorough):
     cases = []
     if thorough:
         kinds = [(a, b) for a in T.KINDS for b in T.KINDS]
-        targets = ["t1", "t2", "t3", "tov"]
-        matches = ["exact", "in+", "in-", "edge-in"]
+        targets = ["t2", "t3", "tov"]
+        matches = ["exact", "in+", "in-"]
         layouts = ["single", "other-first", "other-last"]
     else:
         kinds = [(a, b) for a in ("dense", "evol", "perm") for b in ("dense", "int")]
-        targets = ["t1", "t3", "tov"]
+        targets = ["t3", "tov"]
         matches = ["exact", "in+"]
-        layouts = ["single", "other-first"]
+        layouts = ["other-first"]
     for ek, lk in kinds:
         for err in ERRS:
             for tg in targets:
@@ -231,6 +231,13 @@ def _cases(thorough):
                     for mode in ("inplace", "copy"):
                         for lay in layouts:
                             cases.append(dict(ekind=ek, lkind=lk, err=err, targets=tg, match=mt, mode=mode, layout=lay, nx=2))
+    # single-target final EKO with the remaining layouts; offsets at the edge of the tolerance
+    for err in ERRS:
+        for mode in ("inplace", "copy"):
+            for lay in ("single", "other-last"):
+                cases.append(dict(ekind="dense", lkind="dense", err=err, targets="t1", match="exact", mode=mode, layout=lay, nx=2))
+            for lay in layouts:
+                cases.append(dict(ekind="dense", lkind="dense", err=err, targets="t3", match="edge-in", mode=mode, layout=lay, nx=2))
     # 3-point grids (thorough: all kinds; quick: the dense pair)
     for ek, lk in (kinds if thorough else [("dense", "dense")]):
         for err in ("both", "fin-only"):
@@ -254,13 +261,14 @@ def run(ctx):
     cases = _cases(ctx.thorough())
     ctx.run_cases(cases, evaluate)
     ctx.rule = (
-        "complete product of (earlier kind, later kind) from {dense, evol, perm, diag, int} (quick: 3x3) x error "
-        "presence {both, none, ini-only, fin-only} x target set of the final EKO {1, 2 unsorted, 3 over two nf, "
-        "one overlapping the initial EKO} x offset of the final EKO's start from the initial EKO's point "
-        "{0, +-0.5, 0.9 tol, wide rtol} x {in place, new archive} x layout of the initial EKO {single, other point "
-        "first/last}; plus 3-point grids and refusals {1.1, +-2 tol, tight rtol, far, nf differs}; every operator of the "
-        "result (live object and re-read archive) compared with the tensordot reference; non-trivial = composed "
-        "and the two factors do not commute (or refused as required)"
+        "complete product of (earlier kind, later kind) from {dense, evol, perm, diag, int}^2 (quick: {dense, evol, perm} x "
+        "{dense, int}) x error presence {both, none, ini-only, fin-only} x target set of the final EKO {2 unsorted, 3 over "
+        "two nf, one overlapping the initial EKO} (quick: last two) x offset of the final EKO's start from the initial EKO's "
+        "point {0, +0.5, -0.5 tol} (quick: first two) x {in place, new archive} x layout of the initial EKO {single, other "
+        "point first/last} (quick: other first); plus slices on the dense pair: single target x remaining layouts, offset 0.9 "
+        "tol, wide rtol argument, 3-point grids; refusals {1.1, +-2 tol, tight rtol, far, nf differs} x mode x layout; every "
+        "operator of the re-read result compared with the tensordot reference (live object compared with the archive); "
+        "non-trivial = composed and the two factors do not commute (or refused as required)"
     )
     ctx.assumptions += [
         "operators are synthetic (closed-form tensors of 5 families), x-grids of 2 and 3 points",
